@@ -189,7 +189,13 @@ func c12Len(r *rng.R) float64 {
 
 func c12Dim(r *rng.R) float64 {
 	const lo, hi = 12.7, 558.8
-	switch r.Intn(12) {
+	switch r.Intn(14) {
+	case 12:
+		// less than half a twip outside the range: within the unit rounding of the bound (the library decides, see the caller)
+		// ... and just beyond that (outside the range by more than the rounding of the unit: invalid)
+		return lo - []float64{0.001, 0.004, 0.008, 0.0095, 0.012}[r.Intn(5)]
+	case 13:
+		return hi + []float64{0.001, 0.004, 0.008, 0.0095, 0.012}[r.Intn(5)]
 	case 0:
 		return lo
 	case 1:
@@ -309,6 +315,11 @@ func c12Case(c *core.Ctx) *core.Result {
 			op, argc = "SetCustomPageSize", fmt.Sprintf("%.4f,%.4f", w, h)
 			call = func() { err = d.SetCustomPageSize(w, h) }
 			valid = w >= 12.7 && w <= 558.8 && h >= 12.7 && h <= 558.8
+			if !valid && w >= 12.7-0.0085 && w <= 558.8+0.0085 && h >= 12.7-0.0085 && h <= 558.8+0.0085 {
+				// outside the range by less than the unit rounding: whether that is still the bound itself is the library's decision -
+				// all or nothing, and whatever it stores must not get in the way of later calls
+				valid, undetermined = true, true
+			}
 			rec.Size, rec.W, rec.H = document.PageSizeCustom, w, h
 		case 3, 4:
 			o := []document.PageOrientation{document.OrientationPortrait, document.OrientationLandscape, "sideways", ""}[r.Intn(4)]
@@ -380,6 +391,9 @@ func c12Case(c *core.Ctx) *core.Result {
 			op, argc = "SetPageSettings", fmt.Sprintf("%+v", *s)
 			call = func() { err = d.SetPageSettings(s) }
 			valid = s.Size != document.PageSizeCustom || (s.CustomWidth >= 12.7 && s.CustomWidth <= 558.8 && s.CustomHeight >= 12.7 && s.CustomHeight <= 558.8)
+			if !valid && s.CustomWidth >= 12.7-0.0085 && s.CustomWidth <= 558.8+0.0085 && s.CustomHeight >= 12.7-0.0085 && s.CustomHeight <= 558.8+0.0085 {
+				valid, undetermined = true, true // within the unit rounding of a bound: the library decides (see SetCustomPageSize)
+			}
 			rec.Orient = s.Orientation
 			rec.MT, rec.MR, rec.MB, rec.ML, rec.Header, rec.Footer, rec.Gutter = s.MarginTop, s.MarginRight, s.MarginBottom, s.MarginLeft, s.HeaderDistance, s.FooterDistance, s.GutterWidth
 			if s.Size == document.PageSizeCustom {
